@@ -19,7 +19,9 @@ class FortranRegularExpressions:
         r"[ ]*,[ ]*(?P<only>ONLY)[ ]*:[ ]*(?P<start1>[\w_])"  # import, only: name-list
         r"|"  # or
         r"[ ]+(?:::[ ]*)?(?P<start2>[\w_])"  # import [[::] name-list]
-        r")?",  # standalone import
+        r"|"  # or
+        r"(?![\w(])"  # standalone import, not a name that starts with import
+        r")",
         I,
     )
     INCLUDE: Pattern = compile(r"[ ]*INCLUDE[ :]*[\'\"]([^\'\"]*)", I)
